@@ -33,8 +33,14 @@ Nest(depth) == IF depth = 0 THEN {1}
 (* depth 3 and 4 explode; take rectangular ones plus single-defect variants *)
 RECURSIVE Rect(_, _)
 Rect(dims, depth) == IF depth = 0 THEN 1 ELSE [i \in 1..dims[1] |-> Rect(Tail(dims), depth - 1)]
-Defects3 == {<<<<<<1, 1>>>>, <<<<1>>>>>>, <<<<<<1>>, <<1>>>>, <<<<1>>>>>>, <<<<<<1, 1>>, <<1>>>>>>, <<<<>>>>, <<<<<<>>>>>>, <<<<<<1>>>>, <<>>>>, <<<<<<1, 1>>, <<1, 1>>>>, <<<<1, 1>>, <<1>>>>>>}
-Defects4 == {<<<<<<<<1, 1>>>>>>, <<<<<<1>>>>>>>>, <<<<<<<<1>>, <<1>>>>>>, <<<<<<1>>>>>>>>, <<<<<<<<1>>>>, <<<<1>>>>>>, <<<<<<1>>>>>>>>,
+(* blocks with the SAME number of values but another factorisation: counting values instead of comparing lengths misses them *)
+EqCount3 == {<<<<<<1, 1>>>>, <<<<1>>, <<1>>>>>>, <<<<<<1>>, <<1>>>>, <<<<1, 1>>>>>>}
+EqCount4 == {<<<<<<<<1, 1>>>>>>, <<<<<<1>>, <<1>>>>>>>>,
+             <<<<<<<<1, 1, 1>>, <<1, 1, 1>>>>>>, <<<<<<1, 1>>, <<1, 1>>, <<1, 1>>>>>>>>,
+             <<<<<<<<1, 1>>, <<1, 1>>>>>>, <<<<<<1, 1, 1, 1>>>>>>>>,
+             <<<<<<<<1, 1>>>>, <<<<1, 1>>>>>>, <<<<<<1, 1>>, <<1, 1>>>>>>>>}
+Defects3 == EqCount3 \cup {<<<<<<1, 1>>>>, <<<<1>>>>>>, <<<<<<1>>, <<1>>>>, <<<<1>>>>>>, <<<<<<1, 1>>, <<1>>>>>>, <<<<>>>>, <<<<<<>>>>>>, <<<<<<1>>>>, <<>>>>, <<<<<<1, 1>>, <<1, 1>>>>, <<<<1, 1>>, <<1>>>>>>}
+Defects4 == EqCount4 \cup {<<<<<<<<1, 1>>>>>>, <<<<<<1>>>>>>>>, <<<<<<<<1>>, <<1>>>>>>, <<<<<<1>>>>>>>>, <<<<<<<<1>>>>, <<<<1>>>>>>, <<<<<<1>>>>>>>>,
              <<<<<<<<>>>>>>>>, <<<<<<>>>>>>, <<<<<<<<1, 1>>>>, <<<<1>>>>>>>>, <<<<<<<<1, 1>>>>>>, <<>>>>}
 TensorOfCalls == <<[fn |-> "tensorof", depth |-> 0, data |-> 1]>>
                  \o SetToSeq({[fn |-> "tensorof", depth |-> 1, data |-> d] : d \in Nest(1)})
